@@ -648,6 +648,26 @@ fn tcp_mapping_run() -> Result<u64, String> {
                 }
             }
         }
+        // candidates that fail before any connect is attempted (the local source address of their family
+        // cannot be bound): that is a failed candidate like any other — the others are still tried
+        let v6 = tokio::net::TcpListener::bind("[::1]:0").await.map_err(|e| e.to_string())?;
+        let v6_addr = v6.local_addr().unwrap();
+        for addrs in [vec![v6_addr, open_addr], vec![open_addr, v6_addr], vec![v6_addr, closed[0], open_addr], vec![v6_addr, closed[0]]] {
+            for conc in [None, Some(1), Some(2)] {
+                let mut cfg = TcpTransportConfig::default();
+                cfg.happy_eyeballs_concurrency = conc;
+                cfg.happy_eyeballs_timeout = Some(Duration::from_secs(5));
+                // 2001:db8::/32 is the documentation prefix: no interface has it
+                cfg.local_address_ipv6 = Some("2001:db8::1".parse().unwrap());
+                let transport: TcpTransport = TcpTransport::builder().with_config(cfg).with_gai_resolver().build();
+                let r = tokio::time::timeout(Duration::from_secs(20), transport.connect_to_addrs(addrs.clone())).await.map_err(|_| format!("connect_to_addrs({addrs:?}) hung"))?;
+                let any_open = addrs.contains(&open_addr);
+                if r.is_ok() != any_open {
+                    return Err(format!("connect_to_addrs({addrs:?}, concurrency {conc:?}, unbindable IPv6 source address) = {:?}, expected success={any_open}: a candidate that cannot even be set up is one failed candidate", r.map(|_| ())));
+                }
+                n += 1;
+            }
+        }
         Ok(n)
     })
 }
